@@ -206,7 +206,7 @@ Mon27Step(g, e) ==
 
 -----------------------------------------------------------------------------
 (* C40  Republish and acknowledgement see the same retained notifications   *)
-M40Init == [ret |-> {}, acked |-> {}, exp |-> {}, risk |-> FALSE]
+M40Init == [ret |-> {}, acked |-> {}, exp |-> {}, risk |-> FALSE, pend |-> 0]
 \* ret: set of [sub, seq, k, vals]; acked: set of <<sub, seq>>; exp: set of [req, codes]
 
 Mon40Step(g, e) ==
@@ -215,16 +215,19 @@ Mon40Step(g, e) ==
   LET live == {e.st.subs[j].id : j \in 1..Len(e.st.subs)}
       isRet(g0, a) == \E x \in g0.ret : x.sub = a[1] /\ x.seq = a[2]
       \* --- acknowledgements carried by a publish request: prediction made when the request is received
-      expCodes == IF e.ev # "Pub" THEN <<>>
+      \* a publish request that is refused (BadNoSubscription, BadTooManyPublishRequests) acknowledges nothing
+      accepted == e.ev = "Pub" /\ ~(\E j \in 1..Len(e.out) : e.out[j].k = "FAULT" /\ e.out[j].req = e.req)
+      expCodes == IF ~accepted THEN <<>>
                   ELSE [j \in 1..Len(e.acks) |->
                          IF g.risk THEN "any"
                          ELSE IF isRet(g, e.acks[j]) /\ e.acks[j] \notin g.acked
                                  /\ ~(\E k \in 1..(j-1) : e.acks[k] = e.acks[j]) THEN "Good"
-                         ELSE IF ~isRet(g, e.acks[j]) /\ e.acks[j][1] \in live THEN "BadSequenceNumberUnknown"
+                         \* (responses still waiting in the server's response queue are not known to the monitor)
+                         ELSE IF ~isRet(g, e.acks[j]) /\ e.acks[j][1] \in live /\ g.pend = 0 THEN "BadSequenceNumberUnknown"
                          ELSE "any"]
       g1 == IF e.ev = "CreateSub"          \* a re-used subscription id starts a new incarnation
             THEN [g EXCEPT !.ret = {x \in @ : x.sub # e.sub}, !.acked = {a \in @ : a[1] # e.sub}]
-            ELSE IF e.ev = "Pub"
+            ELSE IF accepted
             THEN [g EXCEPT !.exp = @ \cup {[req |-> e.req, codes |-> expCodes]},
                            !.acked = @ \cup {e.acks[j] : j \in {k \in 1..Len(e.acks) : expCodes[k] = "Good"}}]
             ELSE g
@@ -254,7 +257,7 @@ Mon40Step(g, e) ==
                       \cup (IF r.code # "Good" /\ hit # {} /\ a \notin g1.acked /\ e.sub \in live /\ ~g1.risk
                               THEN {"retained-notification-not-republishable"} ELSE {})
       answered == {rs[j].req : j \in 1..Len(rs)}
-  IN [g |-> [g1 EXCEPT !.ret = unacked, !.risk = risk1, !.exp = {x \in @ : x.req \notin answered}],
+  IN [g |-> [g1 EXCEPT !.ret = unacked, !.risk = risk1, !.exp = {x \in @ : x.req \notin answered}, !.pend = e.st.nresp],
       viol |-> vres \cup vrep]
 
 =============================================================================
